@@ -479,8 +479,13 @@ func runC11(t *zsim.Tape, cfg *hlib.Config) *hlib.Outcome {
 			site := c11Attribute(t, sc, ref, hits)
 			sc.Other = got
 			sc.Site = site
+			if sc.Kind == "script" && !strings.HasPrefix(site, "multi[") {
+				// scenario-level minimisation: drop every line the divergence at this site does not
+				// need (deterministic, so a replay arrives at the same minimal program)
+				c11MinimiseScript(t, sc, site)
+			}
 			out.Sig = "maporder:" + site
-			out.Detail = fmt.Sprintf("same scenario, different map iteration order at %s ⇒ different observable outcome\n  sorted order : %s\n  other order  : %s", site, ref, got)
+			out.Detail = fmt.Sprintf("same scenario, different map iteration order at %s ⇒ different observable outcome\n  sorted order : %s\n  other order  : %s", site, sc.Sorted, sc.Other)
 			out.Trace = w.Trace()
 			return out
 		}
@@ -528,4 +533,53 @@ func c11Attribute(t *zsim.Tape, sc *c11Scenario, ref string, hits map[string]int
 		}
 	}
 	return "multi[" + strings.Join(sites, ",") + "]"
+}
+
+// c11MinimiseScript greedily removes lines of a script scenario while the single-site
+// attribution still names the same site.
+func c11MinimiseScript(t *zsim.Tape, sc *c11Scenario, site string) {
+	lines := strings.Split(strings.TrimRight(sc.Main, "\n"), "\n")
+	diverges := func(ls []string) (string, string, bool) {
+		cand := &c11Scenario{Kind: "script", Main: strings.Join(ls, "\n") + "\n"}
+		w0 := zsim.NewWorld(zsim.NewTape(1))
+		w0.Enter()
+		ref := c11Exec(w0, cand)
+		w0.Leave()
+		if strings.Contains(ref, "语法错误") {
+			return "", "", false
+		}
+		if c11Attribute(t, cand, ref, map[string]int{site: 1}) != site {
+			return "", "", false
+		}
+		return cand.Main, ref, true
+	}
+	for i := len(lines) - 1; i >= 0; i-- {
+		if strings.HasPrefix(lines[i], "导入") {
+			continue
+		}
+		cand := append(append([]string{}, lines[:i]...), lines[i+1:]...)
+		if _, _, ok := diverges(cand); ok {
+			lines = cand
+		}
+	}
+	if main, ref, ok := diverges(lines); ok {
+		sc.Main, sc.Sorted = main, ref
+		// the "other order" outcome of the minimal program: first order that differs
+		for _, dec := range [][]uint32{{1}, {2, 1}, {2, 2}, {2, 3}, {3, 1, 1, 1, 1}} {
+			rep := make([]uint32, 0, 400)
+			for len(rep) < 400 {
+				rep = append(rep, dec...)
+			}
+			w := zsim.NewWorld(zsim.ReplayTape(rep))
+			w.MapMode = zsim.MapTape
+			w.MapOnly = map[string]bool{site: true}
+			w.Enter()
+			got := c11Exec(w, sc)
+			w.Leave()
+			if got != ref {
+				sc.Other = got
+				break
+			}
+		}
+	}
 }
